@@ -376,6 +376,8 @@ func c02ValidateSpec(c *core.Ctx, a *c02Anchors, f *flow.Func, vjObj *types.Func
 	res := analyze(c, f, flow.Config{
 		NoHavoc: true,
 		Inline:  inlineSamePkg(f, vjObj),
+		// a recover closure held in a local (`recoverAsError := func() {..}; defer recoverAsError()`)
+		InlineClosures: true,
 		OnBlock: func(st *flow.State, b *cfg.Block) {
 			if b.Stmt != loop {
 				return
@@ -667,6 +669,7 @@ func c02ValidateJump(c *core.Ctx, a *c02Anchors, f *flow.Func, cons string, isSp
 	// outer loop: reverse over Spec.Flow
 	var iID *ast.Ident
 	var flowX ast.Expr
+	indexRender := "" // how the node of the iteration is indexed: i, or (n - 1)
 	switch l := outer.(type) {
 	case *ast.RangeStmt:
 		// forwards only if the node of the iteration is the element the loop is at
@@ -714,17 +717,35 @@ func c02ValidateJump(c *core.Ctx, a *c02Anchors, f *flow.Func, cons string, isSp
 				}
 			}
 		}
+		// the other spelling of the same loop: for n := len(X); n > 0; n-- { … X[n-1] … }
 		if !okShape {
-			c.Undecide("R-C02-7", cons+"|targets counted from later nodes only", pos(c, l), "node loop is neither `for i := len(flow)-1; i >= 0; i--` nor a forward loop")
+			if init, ok := l.Init.(*ast.AssignStmt); ok && iID != nil && len(init.Lhs) == 1 && len(init.Rhs) == 1 && c02Obj(f, init.Lhs[0]) == c02Obj(f, iID) && l.Cond != nil {
+				if call, ok := ast.Unparen(init.Rhs[0]).(*ast.CallExpr); ok && len(call.Args) == 1 {
+					if b, ok := f.Callee(call).(*types.Builtin); ok && b.Name() == "len" {
+						k, neg := f.Atom(l.Cond)
+						ri := f.Render(iID)
+						if (k == "lt:0<"+ri && !neg) || (k == "lt:"+ri+"<1" && neg) {
+							flowX, okShape = call.Args[0], true
+							indexRender = "(" + ri + " - 1)"
+						}
+					}
+				}
+			}
+		}
+		if !okShape {
+			c.Undecide("R-C02-7", cons+"|targets counted from later nodes only", pos(c, l), "node loop is neither `for i := len(flow)-1; i >= 0; i--`, `for n := len(flow); n > 0; n--` nor a forward loop")
 			return
 		}
+	}
+	if indexRender == "" && iID != nil {
+		indexRender = f.Render(iID)
 	}
 	_, overFlow := d.fieldSel(flowX, fSpecFlow)
 	if !overFlow || d.n[c02Obj(f, iID)] != 2 { // init + post
 		c.Violate("R-C02-7", cons+"|every node visited", pos(c, outer), "the node loop does not visit Spec.Flow[len-1 … 0] one by one (other slice, or the index is modified in the body): some nodes' jumps are not validated")
 		return
 	}
-	if N != d.norm(flowX)+"["+f.Render(iID)+"]" {
+	if N != d.norm(flowX)+"["+indexRender+"]" {
 		c.Violate("R-C02-7", cons+"|targets counted by the runtime alias", pos(c, inc), "the counted node ("+N+") is not the node of this iteration")
 		return
 	}
@@ -1088,6 +1109,9 @@ func c02ValidateGlobal(c *core.Ctx, a *c02Anchors) {
 			v.own = as
 		}
 		vcs = append(vcs, v)
+	}
+	if len(vcs) == 0 && c02ValidateGlobalTable(c, f, d, cons, fb, fa) {
+		return
 	}
 	for _, want := range []string{"beforePipeline", "afterPipeline"} {
 		var v *vcall
@@ -1537,4 +1561,150 @@ func c02MemberHelper(c *core.Ctx, f *flow.Func, d *c02Defs, call *ast.CallExpr, 
 		return nil, "membership helper " + name + " has no return", "undecided"
 	}
 	return call, "", "ok"
+}
+
+// c02ValidateGlobalTable handles the table form of GlobalFilter's Validate: one call of the pipeline
+// Spec's Validate inside a loop over a literal list whose entries name the before and the after spec.
+// Decided: both specs are in the list, every iteration validates its entry, the loop goes on only with
+// a nil error, and the function accepts only after the loop is exhausted. Returns false when the
+// function does not have that form.
+func c02ValidateGlobalTable(c *core.Ctx, f *flow.Func, d *c02Defs, cons string, fb, fa *types.Var) bool {
+	fd := f.Node.(*ast.FuncDecl)
+	var call *ast.CallExpr
+	var lp *c02Loop
+	for _, cl := range callsTo(f, f.Body, false, "(*"+c02pl+".Spec).Validate", "("+c02pl+".Spec).Validate") {
+		loops := enclosingLoops(f.Body, cl)
+		if len(loops) != 1 {
+			continue
+		}
+		l := c02LoopOf(f, loops[0])
+		sel, ok := ast.Unparen(cl.Fun).(*ast.SelectorExpr)
+		if l == nil || l.reverse || !ok {
+			continue
+		}
+		// the receiver is (a field of) the element of the iteration
+		root := sel.X
+		for {
+			if s2, ok := ast.Unparen(root).(*ast.SelectorExpr); ok {
+				root = s2.X
+				continue
+			}
+			break
+		}
+		if l.elem(d, root) || l.elem(d, sel.X) {
+			call, lp = cl, l
+		}
+	}
+	if call == nil {
+		return false
+	}
+	lit, ok := d.alias(lp.X).(*ast.CompositeLit)
+	if !ok {
+		return false
+	}
+	covered := map[*types.Var]bool{}
+	for _, el := range lit.Elts {
+		ast.Inspect(el, func(n ast.Node) bool {
+			if se, ok := n.(*ast.SelectorExpr); ok {
+				if sl := f.Info.Selections[se]; sl != nil {
+					if sl.Obj() == types.Object(fb) {
+						covered[fb] = true
+					}
+					if sl.Obj() == types.Object(fa) {
+						covered[fa] = true
+					}
+				}
+			}
+			return true
+		})
+	}
+	var errID *ast.Ident
+	if as, ok := d.parent(call).(*ast.AssignStmt); ok && len(as.Lhs) == 1 {
+		errID, _ = ast.Unparen(as.Lhs[0]).(*ast.Ident)
+	}
+	var badBack, badSkip *flow.State
+	var badExit *flow.Exit
+	if errID != nil && errID.Name != "_" {
+		const (
+			evIn     = "ev:tbl:in"
+			evCalled = "ev:tbl:called"
+		)
+		res := analyze(c, f, flow.Config{
+			OnBlock: func(st *flow.State, b *cfg.Block) {
+				if b.Stmt != lp.stmt {
+					return
+				}
+				switch b.Kind {
+				case lp.bodyKind:
+					st.Set(evIn, flow.True)
+					st.Set(evCalled, flow.False)
+				case lp.backKind:
+					if st.Is(evIn, flow.True) {
+						if !st.Is(evCalled, flow.True) && badSkip == nil {
+							badSkip = st
+						} else if st.Is(evCalled, flow.True) && !st.Is(f.NilKey(errID), flow.True) && badBack == nil {
+							badBack = st
+						}
+					}
+					st.Set(evIn, flow.False)
+				case lp.doneKind:
+					if !st.Is(evIn, flow.True) {
+						st.Set("ev:tbl:done", flow.True)
+					}
+				}
+			},
+			OnCall: func(st *flow.State, cc *ast.CallExpr, callee types.Object, deferred bool) {
+				if cc == call {
+					st.Set(evCalled, flow.True)
+				}
+			},
+		})
+		if res == nil {
+			return true
+		}
+		for _, ex := range res.Exits {
+			if ex.Kind != flow.ExitReturn {
+				continue
+			}
+			accept := true
+			if ex.Return != nil && len(ex.Return.Results) == 1 {
+				r := ast.Unparen(ex.Return.Results[0])
+				if id, ok := r.(*ast.Ident); ok && !f.Info.Types[r].IsNil() {
+					accept = !ex.State.Is(f.NilKey(id), flow.False)
+				} else if _, ok := r.(*ast.CallExpr); ok {
+					accept = false
+				}
+			}
+			if accept && !ex.State.Is("ev:tbl:done", flow.True) && badExit == nil {
+				badExit = ex
+			}
+		}
+	}
+	for _, k := range []struct {
+		name string
+		v    *types.Var
+	}{{"beforePipeline", fb}, {"afterPipeline", fa}} {
+		name := cons + "|" + k.name + " spec validated"
+		switch {
+		case !covered[k.v]:
+			c.Violate("R-C02-7", name, pos(c, lit), "the list of specs GlobalFilter's Validate walks over does not contain the "+k.name+" spec: flows with invalid jumps / unknown filters are accepted and run around every request")
+		case errID == nil || errID.Name == "_":
+			c.Violate("R-C02-7", name, pos(c, call), "the error returned by validating the listed specs is discarded")
+		default:
+			var w []string
+			switch {
+			case badBack != nil:
+				w = witness(badBack)
+			case badSkip != nil:
+				w = witness(badSkip)
+			case badExit != nil:
+				w = append([]string{"exit at " + pos(c, badExit.At)}, witness(badExit.State)...)
+			}
+			c.Check(badBack == nil && badSkip == nil && badExit == nil, "R-C02-7", name, pos(c, call),
+				"listed, validated in every iteration, the loop continues only with a nil error and the function accepts only after the list is exhausted",
+				"GlobalFilter's Validate can accept a spec although a listed pipeline spec was not validated or its validation error was dropped (loop continued with an unchecked error, entry passed over, or accepted before the list was exhausted): invalid before/after flows are accepted", w...)
+		}
+	}
+	_ = fd
+	return true
 }
